@@ -483,6 +483,16 @@ impl Endpoint {
             .await
     }
 
+    /// verification hook: (transaction table size, managed transport table size, pending STUN transactions)
+    #[cfg(feature = "ezk-verif")]
+    pub fn verif_counts(&self) -> (usize, usize, usize) {
+        (
+            self.inner.transactions.verif_len(),
+            self.inner.transports.verif_len(),
+            self.inner.transports.verif_stun_pending(),
+        )
+    }
+
     pub(crate) fn transactions(&self) -> &Transactions {
         &self.inner.transactions
     }
